@@ -270,7 +270,8 @@ class C15(Check):
             'programs run against all three batcher forms, logs compared; (d) one decorated batcher used from 1-3 loops '
             'successively (gc in between) and 2-3 at once; (e) segment programs: 1-3 loops that stay open and are driven piecewise, '
             '1-2 wrappers (mostly of one function object) with different options, compared event by event with one '
-            'AsyncBackgroundBatcher per (loop, wrapper); non-trivial = the observed effect distinguishes the given value '
+            'AsyncBackgroundBatcher per (loop, wrapper), 30 % with collector runs while every loop is idle, 25 % with calls made on one '
+            'loop and evaluated by another through ensure_aw; non-trivial = the observed effect distinguishes the given value '
             'from the default (a, b), the program produced >= 2 batches (c), >= 2 loops were served (d), a loop is returned to or '
             'one function is wrapped twice (e); distinct = distinct cases')
     SIZES = {'quick': {'diff': 9000, 'multi': 5000, 'segments': 4000, 'optrep': 1},
